@@ -17,7 +17,8 @@
 //	      | M <k> (S … | F …)*                             reading schedule on ONE decoder: record i is read with call i mod k
 //	rec   = <geom tokens> <nv> <val>*                      val = i<dec> | f<16 hex> | s<hex>
 //
-// Result: W <per record ok|err|panic:..>* R <nread> (<geom tokens> <nv> <val|->*)* E <0|1>
+// Result: W <per record ok|err|panic:..>* R <nread> (<geom tokens> <nv> <val|->*)* E <0|1> FILES x<.shp hex> x<.shx hex> x<.dbf hex>
+// (the bytes of the real temporary files after Encoder.Close())
 // or one of  newenc-panic:<..> | newenc-err | newdec-err | pin-mismatch <sum>
 package main
 
@@ -413,14 +414,28 @@ func runCase(c fcase) string {
 		}
 	}
 	enc.Close()
+	// the bytes of the three files as go-shp left them (compared with the byte-layout model by the judge)
+	var fileToks strings.Builder
+	fileToks.WriteString(" FILES")
+	for _, e := range []string{".shp", ".shx", ".dbf"} {
+		data, rerr := os.ReadFile(base + e)
+		if rerr != nil {
+			fileToks.WriteString(" missing")
+		} else {
+			fileToks.WriteString(" x" + hex.EncodeToString(data))
+		}
+	}
 
 	// ---- read
 	dec, err := gshp.NewDecoder(base + ".shp")
 	if err != nil {
 		return "newdec-err"
 	}
-	defer dec.Close()
-	var rows []string
+	// Every row's result is KEPT as the caller received it (the map of DecodeRowFields, the geometry value, the
+	// record struct - for a reused record variable a shallow copy taken when the call returned, as a caller that
+	// appends `rec` to a slice does) and only printed after the whole file has been read to the end and the
+	// Decoder has been closed: results must not alias state the Decoder goes on using.
+	var rows []func() string
 	limit := len(c.recs) + 3
 	calls := c.r.calls
 	if c.r.path != 'M' {
@@ -434,6 +449,7 @@ func runCase(c fcase) string {
 			vars[i] = reflect.New(types[i])
 		}
 	}
+	panicRow := func() string { return "PANIC" }
 	// one Decoder for the whole file; record i is read with call i mod len(calls)
 	for i := 0; len(rows) < limit && len(calls) > 0; i++ {
 		cl := calls[i%len(calls)]
@@ -444,73 +460,87 @@ func runCase(c fcase) string {
 			}
 			var more bool
 			if pan := vproto.Safe(func() { more = dec.DecodeRow(p.Interface()) }); pan != "" {
-				rows = append(rows, "PANIC")
+				rows = append(rows, panicRow)
 				break
 			}
 			if !more {
 				break
 			}
-			var rb strings.Builder
-			nv := 0
-			var vs strings.Builder
-			for i, f := range cl.sf {
-				fv := p.Elem().Field(i)
-				if isGeomKind(f.kind) {
-					if f.kind == "gI" && fv.IsNil() {
-						rb.WriteString("NIL")
-					} else {
-						rb.WriteString(vproto.GeomToks(fv.Interface().(geom.Geom)))
-					}
-					continue
-				}
-				nv++
-				switch f.kind {
-				case "i":
-					vs.WriteString(" i" + strconv.FormatInt(fv.Int(), 10))
-				case "f":
-					vs.WriteString(" f" + vproto.F2H(fv.Float()))
-				case "s":
-					vs.WriteString(" " + hx("s", fv.String()))
-				}
+			kept := p.Elem()
+			if cl.reuse {
+				kept = reflect.New(types[i%len(calls)]).Elem()
+				kept.Set(p.Elem())
 			}
-			fmt.Fprintf(&rb, " %d%s", nv, vs.String())
-			rows = append(rows, rb.String())
+			sf := cl.sf
+			rows = append(rows, func() string {
+				var rb strings.Builder
+				nv := 0
+				var vs strings.Builder
+				for i, f := range sf {
+					fv := kept.Field(i)
+					if isGeomKind(f.kind) {
+						if f.kind == "gI" && fv.IsNil() {
+							rb.WriteString("NIL")
+						} else {
+							rb.WriteString(vproto.GeomToks(fv.Interface().(geom.Geom)))
+						}
+						continue
+					}
+					nv++
+					switch f.kind {
+					case "i":
+						vs.WriteString(" i" + strconv.FormatInt(fv.Int(), 10))
+					case "f":
+						vs.WriteString(" f" + vproto.F2H(fv.Float()))
+					case "s":
+						vs.WriteString(" " + hx("s", fv.String()))
+					}
+				}
+				fmt.Fprintf(&rb, " %d%s", nv, vs.String())
+				return rb.String()
+			})
 		} else {
 			var g geom.Geom
 			var fields map[string]string
 			var more bool
 			if pan := vproto.Safe(func() { g, fields, more = dec.DecodeRowFields(cl.names...) }); pan != "" {
-				rows = append(rows, "PANIC")
+				rows = append(rows, panicRow)
 				break
 			}
 			if !more {
 				break
 			}
-			var rb strings.Builder
-			rb.WriteString(vproto.GeomToks(g))
-			fmt.Fprintf(&rb, " %d", len(cl.names))
-			for _, n := range cl.names {
-				if v, ok := fields[n]; ok {
-					rb.WriteString(" " + hx("s", v))
-				} else {
-					rb.WriteString(" -")
+			names := cl.names
+			rows = append(rows, func() string {
+				var rb strings.Builder
+				rb.WriteString(vproto.GeomToks(g))
+				fmt.Fprintf(&rb, " %d", len(names))
+				for _, n := range names {
+					if v, ok := fields[n]; ok {
+						rb.WriteString(" " + hx("s", v))
+					} else {
+						rb.WriteString(" -")
+					}
 				}
-			}
-			rows = append(rows, rb.String())
+				return rb.String()
+			})
 		}
 		if dec.Error() != nil {
 			break
 		}
 	}
+	decErr := dec.Error()
+	dec.Close()
 	fmt.Fprintf(&b, " R %d", len(rows))
 	for _, r := range rows {
-		b.WriteString(" " + r)
+		b.WriteString(" " + r())
 	}
-	if dec.Error() != nil {
+	if decErr != nil {
 		b.WriteString(" E 1")
 	} else {
 		b.WriteString(" E 0")
 	}
+	b.WriteString(fileToks.String())
 	return b.String()
 }
 
